@@ -12,7 +12,8 @@
     is an inner branch with p = 1). *)
 From Coq Require Import String ZArith QArith Bool Arith Permutation List.
 From GT Require Import Base.UTree Spec.Obs Spec.Support Model.Support
-     Proofs.SupportBase Proofs.SupportMTD Proofs.SupportClosed Proofs.SupportSpec Proofs.SupportDomain.
+     Proofs.SupportBase Proofs.SupportMTD Proofs.SupportClosed Proofs.SupportSpec Proofs.SupportDomain
+     Proofs.SupportInvariance Proofs.SupportReroot.
 Import ListNotations.
 Local Close Scope Q_scope.
 Local Open Scope string_scope.
@@ -156,6 +157,46 @@ Theorem tbe_bootstrap_order :
     taxa_ok ref boots = true -> Permutation boots boots' -> tbe ref boots = tbe ref boots'.
 Proof. exact tbe_perm. Qed.
 Print Assumptions tbe_bootstrap_order.
+
+(** * ... and so are the rooting and the child order of every tree *)
+(** [rearranged t t']: [t'] is obtained from [t] by re-rooting (Model.Reroot.reroot), by any
+    reordering of the children of its nodes ([tperm]: RotateInternalNodes, SortNeighborsByTips),
+    by unrooting a rooted tree, or by a succession of such steps. *)
+Theorem fbp_rooting_of_bootstrap_trees :
+  forall ref boots boots' e c,
+    domain ref boots -> Forall2 rearranged boots boots' ->
+    In (e, c) (edges ref) -> 2 <= topo_depth ref c ->
+    fbp_val ref boots c = fbp_val ref boots' c.
+Proof. exact fbp_bootstrap_rooting. Qed.
+Print Assumptions fbp_rooting_of_bootstrap_trees.
+
+Theorem tbe_rooting_of_bootstrap_trees :
+  forall ref boots boots' e c,
+    domain ref boots -> Forall2 rearranged boots boots' ->
+    In (e, c) (edges ref) -> 2 <= topo_depth ref c -> boots <> [] ->
+    tbe_val ref boots c = tbe_val ref boots' c.
+Proof. exact tbe_bootstrap_rooting. Qed.
+Print Assumptions tbe_rooting_of_bootstrap_trees.
+
+(** the branch of the rearranged reference that defines the same bipartition gets the same
+    supports *)
+Theorem rooting_of_reference :
+  forall ref ref' boots e c e' c',
+    domain ref boots -> rearranged ref ref' ->
+    In (e, c) (edges ref) -> In (e', c') (edges ref') ->
+    same_split (leaves ref) (leaves c) (leaves c') = true ->
+    2 <= topo_depth ref c -> 2 <= topo_depth ref' c' -> boots <> [] ->
+    fbp_val ref boots c = fbp_val ref' boots c' /\ tbe_val ref boots c = tbe_val ref' boots c'.
+Proof. exact reference_rooting. Qed.
+Print Assumptions rooting_of_reference.
+
+(** the definitions themselves only depend on the bipartitions of the trees *)
+Theorem definitions_see_bipartitions_only :
+  forall X A boots boots',
+    Forall2 (same_bips X) boots boots' ->
+    fbp_spec X A boots = fbp_spec X A boots' /\ tbe_spec X A boots = tbe_spec X A boots'.
+Proof. intros X A boots boots' F. exact (conj (fbp_spec_bips X A boots boots' F) (tbe_spec_bips X A boots boots' F)). Qed.
+Print Assumptions definitions_see_bipartitions_only.
 
 (** * tip branches receive no support *)
 Theorem tip_branches_get_no_support :
